@@ -353,6 +353,8 @@ def thread_harnesses(tier):
          dict(name="cell-size-first-calls", calls=[["s"], ["s"]], bound=b),
          dict(name="tsc-call-vs-invalidate", calls=[["t"], ["ti"]], bound=b),
          dict(name="cached-call-vs-invalidate", calls=[["c", 0], ["ci"], ["c", 0]], bound=b),
+         dict(name="requery-name-vs-enable", calls=[["n"], ["eq"]], requery=True, bound=2),
+         dict(name="requery-colors-vs-enable", calls=[["fq"], ["eq"]], requery=True, bound=2),
          dict(name="cell-size-start-race", calls=[["s"], ["start"]], child=[["s"]], bound=2, method="fork"),
          dict(name="cell-size-start-race", calls=[["s"], ["start"]], child=[["s"]], bound=2, method="spawn")]
     return H
@@ -393,9 +395,18 @@ def t_execute(spec, prefix=()):
             return v
 
         return dict(c=mod.cached(cprobe_body), t=mod.terminal_size_cached(tprobe_body),
-                    f=mod.cached(mod.get_fg_bg_colors.__wrapped__))
+                    f=mod.cached(mod.get_fg_bg_colors.__wrapped__),
+                    n=mod.cached(mod.get_terminal_name_version.__wrapped__))
 
-    fns = {0: make(model.mod(0))}
+    u0 = model.mod(0)
+    fns = {0: make(u0)}
+    st.final = None
+    saved_getters = (u0.get_fg_bg_colors, u0.get_terminal_name_version)
+    if spec.get("requery"):
+        # the real term_image.enable_queries() looks the getters up in term_image.utils at call time:
+        # point it at the copies that were decorated with harness locks; start with queries disabled
+        u0.get_fg_bg_colors, u0.get_terminal_name_version = fns[0]["f"], fns[0]["n"]
+        u0._queries_enabled = False
 
     def prog(pid, calls, tag):
         mod = model.mod(pid)
@@ -409,8 +420,12 @@ def t_execute(spec, prefix=()):
                 r = fns[pid]["t"]._invalidate_terminal_size_cache()
             elif k == "ci":
                 r = fns[pid]["c"]._invalidate_cache()
-            elif k == "f":
+            elif k == "f" or k == "fq":
                 r = fns[pid]["f"](hex=True)
+            elif k == "n":
+                r = fns[pid]["n"]()
+            elif k == "eq":
+                r = L.ti.enable_queries()
             elif k == "s":
                 r = mod.get_cell_size()
                 r = None if r is None else tuple(r)
@@ -424,7 +439,13 @@ def t_execute(spec, prefix=()):
         s.spawn(prog, f"t{i}", args=(0, [c], f"t{i}"))
     if spec.get("child"):
         model.process(0, 1, lambda model, proc: prog(1, spec["child"], "child"), spec["method"])
-    s.run()
+    try:
+        s.run()
+        if spec.get("requery") and not s.deadlock and not any(t.exc is not None for t in s.tasks):
+            # afterwards (no concurrency any more) a get must see the terminal, not the "queries disabled" answer
+            st.final = (fns[0]["n"](), fns[0]["f"](hex=True), u0._queries_enabled)
+    finally:
+        u0.get_fg_bg_colors, u0.get_terminal_name_version = saved_getters
     return ch, s, model, tty, st
 
 
@@ -470,6 +491,13 @@ def t_judge(col, spec, ch, s, model, tty, st, case=None):
         if n != 1:
             viol("body-ran-twice", f"the terminal was asked for its colours {n} times by concurrent first calls",
                  decorator="cached", fn="get_fg_bg_colors")
+    if spec.get("requery"):
+        want = (M.FACTS["name"], M.fmt_colors(1), True)
+        if st.final != want:
+            viol("requery-after-enable", f"after a first call started while queries were disabled raced with "
+                 f"enable_queries(), the getters return (name, colours, queries enabled) = {st.final}, a fresh "
+                 f"computation gives {want}: a result obtained while queries were disabled survived re-enabling",
+                 fn="name" if st.final[0] != want[0] else "colors" if st.final[1] != want[1] else "switch")
     if tty.inq or tty.pending:
         viol("unread", f"unread replies {bytes(tty.inq)!r} {tty.pending}")
     if len(st.results) != len(spec["calls"]) + len(spec.get("child", ())):
